@@ -64,7 +64,7 @@ def _arg(P, form):
     return v.copy().reshape(-1, 1)
 
 
-def _cmp(c, site, got, want, tol, sc):
+def _cmp(c, site, got, want, tol, sc, **extra):
     """compare a returned point array with the (d,N) reference; single vectors after ravel()"""
     try:
         g = np.asarray(got, dtype=float)
@@ -73,7 +73,7 @@ def _cmp(c, site, got, want, tol, sc):
         return
     if want.shape[1] == 1 and g.size == want.size:
         g = g.reshape(want.shape)
-    c.eq(site, g, want, tol, sc)
+    c.eq(site, g, want, tol, sc, **extra)
 
 
 def _pt(case, dim):
@@ -183,13 +183,18 @@ def _pt(case, dim):
             if ok:
                 _cmp(c, "qvmul/value", got, want_q, tol, sc)
             # unit dual quaternion: real = q, dual = 1/2 (0,t) o q  computed by the reference product
-            dual = 0.5 * refs.qmul(np.r_[0.0, t], q)
-            ok, D = c.lib("UnitDualQuaternion", L.UnitDualQuaternion, L.UnitQuaternion([float(x) for x in q]), L.Quaternion(dual.copy()))
-            if ok:
-                ok2, got = c.lib("UDQ*p", lambda: D * arg)
-                if ok2:
-                    if c.true("UDQ*p/notnone", got is not None, "UnitDualQuaternion * point returned None"):
-                        _cmp(c, "UDQ*p/value", got, Rq @ P + t[:, None], tol, sc)
+            for sgn in (1.0, -1.0):            # both quaternions of the double cover describe the same motion
+                qs_ = sgn * q
+                dual = 0.5 * refs.qmul(np.r_[0.0, t], qs_)
+                ok, D = c.lib("UnitDualQuaternion", L.UnitDualQuaternion, L.UnitQuaternion([float(x) for x in qs_]), L.Quaternion(dual.copy()))
+                if ok:
+                    ok2, got = c.lib("UDQ*p", lambda: D * arg)
+                    if ok2:
+                        if c.true("UDQ*p/notnone", got is not None, "UnitDualQuaternion * point returned None"):
+                            _cmp(c, "UDQ*p/value", got, Rq @ P + t[:, None], tol, sc, real_scalar_negative=sgn < 0)
+                    ok2, Ts = c.lib("UDQ.SE3", D.SE3)
+                    if ok2:
+                        c.eq("UDQ.SE3/value", Ts.A, refs.rt(Rq, t), tol, sc)
     if dim == 3:
         # conversion routes (matrix -> quaternion extraction is only accurate to ~1e-8 next to a half turn: 1e-6 here)
         ok, Uc = c.lib("UnitQuaternion(SO3)", L.UnitQuaternion, X_so)
